@@ -875,3 +875,47 @@ func (s *seqRT) ruleStackRerun() {
 			fmt.Sprintf("each run of the same %s value reaches the caller-supplied function deeper than the run before (abstract stack depths %v): a wrapper is stacked on per run, so depth grows with the number of rounds of the enclosing loop once the optimiser has stripped the per-round Delay", cc.name, depths))
 	}
 }
+
+// RW.SCOPE.REDECL (C03): the statements that follow a yield are moved into a function literal (the Bind thunk), and
+// the whole body into the thunk of Start(Delay(…)). A short variable declaration with several variables declares
+// only those that are new *in its own scope*; moved behind such a boundary, a variable of the enclosing block
+// (`n, err := …; Yield(n); m, err := …`) or a parameter (`x, y := x+1, 2` at the top of the body) is declared anew
+// instead of assigned, and a closure created earlier keeps the old one. Keeping the meaning requires knowing which
+// left-hand sides are new, which only go/types' Defs / scope information tells: a rewriter that never reads it
+// cannot be right for partial redeclarations. (Necessary, not sufficient.)
+func ruleRwRedecl(c *Ctx) {
+	w := c.W
+	var where []string
+	for _, f := range w.FuncsOf(pathRw) {
+		for _, b := range f.Blocks {
+			for _, ins := range b.Instrs {
+				switch x := ins.(type) {
+				case *ssa.FieldAddr:
+					pt, _ := x.X.Type().Underlying().(*types.Pointer)
+					if pt == nil {
+						continue
+					}
+					if nt, ok := pt.Elem().(*types.Named); ok && nt.Obj().Pkg() != nil && nt.Obj().Pkg().Path() == "go/types" && nt.Obj().Name() == "Info" {
+						switch fieldName(x.X.Type(), x.Field) {
+						case "Defs", "Scopes", "Implicits":
+							where = append(where, relName(f))
+						}
+					}
+				case ssa.CallInstruction:
+					if callee := x.Common().StaticCallee(); callee != nil && callee.Signature.Recv() != nil && fnPkgPath(callee) == "go/types" {
+						if strings.HasSuffix(callee.Signature.Recv().Type().String(), "types.Scope") {
+							switch callee.Name() {
+							case "LookupParent", "Innermost", "Contains":
+								where = append(where, relName(f))
+							}
+						}
+					}
+				}
+			}
+		}
+		c.fn(relName(f))
+	}
+	c.check(len(where) > 0, "RW.SCOPE.REDECL", "short variable declarations moved behind a suspension point declare only what was new", "",
+		"the rewriter reads go/types' definition / scope information ("+strings.Join(where, ", ")+")",
+		"no function of package rewriter reads types.Info.Defs / Scopes / Implicits or asks a types.Scope: `m, err := …` after a yield (err declared before it), or `x, y := …` at the top of a generator with parameter x, is moved into a function literal as it is and declares a new err / x there; closures created earlier keep the old variable")
+}
